@@ -20,7 +20,7 @@ def protected_state(ex, repo):
 class HistoryProp(Prop):
     """shared by the properties whose workload is the rewrite families"""
     families = [f for f in hist.FAMILIES if f not in ("destructive", "partial", "human_overwrites_ai", "ci_rewrite")
-                and f not in hist.ONE_SIDED_FAMILIES]
+                and f not in hist.ONE_SIDED_FAMILIES] + ["fastpath"]     # fastpath: registered by c15 (see ops)
     two_sided = True
     modes = ["wrapper"]
 
@@ -35,7 +35,7 @@ class HistoryProp(Prop):
         if os.environ.get("GAISIM_FAMILIES"):
             fams = os.environ["GAISIM_FAMILIES"].split(",")
         cfg = {"hazards": hz, "families": fams, "n_files": rng.randint(1, 3), "max_lines": 60,
-               "human_pre_ckpt": True, "gates": self.gates()}
+               "human_pre_ckpt": True, "gates": self.gates(), "dirty_buffers": rng.random() < 0.2}
         idg = gen.IdGen()
         files = gen.initial_files(rng, idg, cfg["n_files"], 10, hz)
         if not any(files.values()):
@@ -65,6 +65,7 @@ class HistoryProp(Prop):
         return hz
 
     def ops(self, rng, ex, cfg):
+        from . import c09, c15  # noqa: F401  (they register the renames and fastpath families)
         g = hist.G(rng, ex, cfg)
         for k, fam in enumerate(cfg["families"]):
             if k:
